@@ -330,6 +330,22 @@ def oracle(ctx):
                 if m is None or sorted(names) != sorted(want_names):
                     ctx.violation('a computed attribute value that is translated (i18n:attributes) reaches the start tag unescaped',
                                   {'template': src, 'v': val, 'translate': fn.__name__}, actual=out)
+    # translated element bodies: a value inserted inside an i18n:translate element (outside any i18n:name child) is part of the
+    # message; whatever the translation function answers for an unknown message - the default it was given or the id - the
+    # value stays escaped text
+    TB = ['<p i18n:translate="">Hello ${v}!</p>', '<p i18n:translate="">Hello <b tal:replace="v"/>!</p>',
+          '<p i18n:translate="">Hello <b tal:content="v" tal:omit-tag=""/>!</p>',
+          '<div><p i18n:translate="">a ${v} b <i i18n:name="n">${v}</i> &amp; &lt;c&gt;</p></div>']
+    for src in TB:
+        for val in HOSTILE:
+            for fn in (None, _gettext, _dflt):
+                ctx.count('evaluations')
+                out = PageTemplate(src, **({'translate': fn} if fn else {}))(v=val)
+                rest = re.sub(r'</?(?:p|div|i)>', '', out)
+                rest2 = re.sub(r'&(?:amp|lt|gt|quot|#\d+|#x[0-9a-fA-F]+);', '', rest)
+                if '<' in rest or '&' in rest2:
+                    ctx.violation('a value inserted into the body of an i18n:translate element reaches the output unescaped',
+                                  {'template': src, 'v': val, 'translate': fn.__name__ if fn else 'default'}, actual=out)
     # the translation of a non-string value may itself be a non-string object (a lazy message; with the default translation
     # function: the value's `default` attribute): its string form is inserted, escaped like any other text
     class _Lazy:
